@@ -305,7 +305,10 @@ decreases forward_parents@.len(),'''},
 use vstd::prelude::*;
 use crate::SyntaxKind;
 ''')
-    U.file('crates/oq3_parser/src/output.rs').item('enum', 'Step')
+    _of = U.file('crates/oq3_parser/src/output.rs')
+    _of.item('enum', 'Step')
+    for _fn in ('token', 'enter_node', 'leave_node', 'error', 'iter'):
+        _of.guard(_fn, None, impl='Output', why='Output::%s is modelled by the trusted stub over `steps()`; encode / decode identity: Kani, thorough tier' % _fn)
     U.prelude('contracts/shared.steps.rs')
     U.raw('''/// stand-in for output.rs::Output (32-bit encoded events; encode/decode identity: Kani harnesses, thorough tier)
 #[verifier::external_body] pub struct Output { _p: u8 }
